@@ -22,7 +22,7 @@ Proof.
 Qed.
 
 Lemma emitting_failed_chk outs n k s : f_kind (node g n) = KChk k -> In s (emitting g outs true n) -> s = OFailed.
-Proof. unfold emitting. intros ->. intros [<-|[]]. reflexivity. Qed.
+Proof. unfold emitting. intros _. intros [<-|[]]. reflexivity. Qed.
 
 Opaque emissions.
 
